@@ -170,7 +170,9 @@ def step (st : St) (toks : List String) : St × String :=
           match htlcs? 1000 rest with
           | some (recv, []) =>
             let i : Info := Info.new true th tc off recv fr
-            applyRes st (signCounterparty st.policy st.setup st.chain st.es n (2 * n + pv % 2) i)
+            -- phase 1 is used exactly when requested (pv ≥ 2) and the harness can build the transaction
+            let ph1 := decide (pv ≥ 2) && buildable st.setup n th tc (off ++ recv)
+            applyRes st (signCounterparty st.policy st.setup st.chain st.es n (2 * n + pv % 2) i ph1)
           | _ => (st, "bad-op")
       | "hold", n :: fr :: th :: tc :: rest =>
         if !st.ready then (st, "nochan") else
